@@ -398,17 +398,19 @@ def file_state(d, i):
 
 def pick_real_kills(gtrace, n, rnd, count):
     """statement boundaries at which a real child process is killed: inside case transactions, just before
-    and just after their COMMIT, during start-up, and random ones"""
+    and just after their COMMIT, during start-up, after the last statement, and random ones"""
     inter = []
     for k, (_, t) in enumerate(gtrace):
         if t[0] == 'IG':
             inter += [k, k + 1, k + 2]
         if t[0] == 'UM':
             inter += [k + 1, k + 2]
-    ks = set(rnd.sample(inter, min(len(inter), count)) if inter else [])
-    ks.update(rnd.sample(range(n + 1), min(2, n + 1)))
-    ks.add(n)
-    return sorted(k for k in ks if 0 <= k <= n)
+    ks = [n] if rnd.random() < 0.5 else []
+    while len(ks) < count and (inter or n):
+        k = rnd.choice(inter) if inter and rnd.random() < 0.75 else rnd.randrange(n + 1)
+        if 0 <= k <= n and k not in ks:
+            ks.append(k)
+    return sorted(ks)
 
 
 def handle_in(c, base):
